@@ -43,6 +43,9 @@ def run(ctx):
     if sim.timeout or not sim.ok:
         raise InfraError("TLC simulation failed: %s\n%s" % (sim.error, sim.stdout[-2000:]))
     bs = behaviours(sim, "MBT")
+    cap = ctx.pick(150, 1500)      # the simulator prints every successor at the last depth: thin out evenly
+    if len(bs) > cap:
+        bs = [bs[i * len(bs) // cap] for i in range(cap)]
     if not bs:
         raise InfraError("no behaviours emitted by the simulation")
     bp, bt = os.path.join(ctx.scratch, "beh.json"), os.path.join(ctx.scratch, "beh.ndjson")
